@@ -327,6 +327,11 @@ def rule_aggregation(ctx):
                    f"`{norm(st, 70)}` stores per-element values at a non-unique bus index: elements sharing a bus overwrite each other", fi.loc(st))
     rule_shortcut_guard(ctx)
     rule_zip_sibling(ctx)
+    R5 = "IS-FACTOR"
+    ctx.rule(R5, "every term that _calc_shunts_and_add_on_ppc adds to the shunt accumulators inside an element block is multiplied by "
+                 "that element's in-service mask (the result side writes zero for out-of-service elements)")
+    if _lints.in_service_factor(ctx, R5, ctx.repo.func("pandapower.build_bus:_calc_shunts_and_add_on_ppc")) < 10:
+        ctx.fail("IS-FACTOR: fewer than 10 accumulated terms found in _calc_shunts_and_add_on_ppc")
     # the balance at a reference bus closes only if the slack power of the bus is shared completely among its reference rows
     R4 = "SLACK-SPLIT"
     ctx.rule(R4, "the slack power of a bus is shared among the reference generators of that bus: the divisor is the number of "
@@ -393,6 +398,8 @@ def variants(repo):
     rb = "pandapower/results_bus.py"
     ms = "pandapower/pypower/makeSbus.py"
     return [
+        Variant("table shunt without in-service mask", bb, replace_once('q = q + s["q_mvar_table"].fillna(0).to_numpy() * v_ratio * vl', 'q = q + s["q_mvar_table"].fillna(0).to_numpy() * v_ratio'), "IS-FACTOR"),
+        Variant("ward admittance without in-service mask", bb, replace_once('p = np.hstack([p, w["pz_mw"].values * base_multiplier * vl])', 'p = np.hstack([p, w["pz_mw"].values * base_multiplier])'), "IS-FACTOR"),
         Variant("ac slack split by all gens at the bus", "pandapower/pypower/pfsoln.py",
                 replace_once("gen[ext_grids, PG] = p_ext_grids / len(ext_grids)", "gen[ext_grids, PG] = p_ext_grids / len(gens_at_bus)"), "SLACK-SPLIT"),
         Variant("dc slack split counts all gens", "pandapower/pf/run_dc_pf.py",
